@@ -85,6 +85,7 @@ type interpreter struct {
 	initDepth int
 	trace     bool
 	directInit bool
+	uninit     map[*ssa.Package]bool
 	iteCache   map[iteKey]*Term
 	methodLookups []string // reflect.MethodByName hits on this path
 	methodCalls   []string // functions invoked through reflect.Value.Call on this path
@@ -149,6 +150,9 @@ func (fr *frame) get(key ssa.Value) value {
 		return constValue(key)
 	case *ssa.Global:
 		fr.i.touchPkg(key.Pkg)
+		if fr.i.uninit[key.Pkg] && !globalReadOK(key) {
+			panic(engineErr{"UNSUPPORTED read of global " + key.String() + ": its package's init is not run by the engine (add a stub or enable the init)"})
+		}
 		if r, ok := fr.i.globals[key]; ok {
 			return r
 		}
@@ -220,6 +224,10 @@ func (i *interpreter) touchPkg(p *ssa.Package) {
 	}
 	i.inited[p] = true
 	if skipInit(p.Pkg.Path()) {
+		if i.uninit == nil {
+			i.uninit = map[*ssa.Package]bool{}
+		}
+		i.uninit[p] = true
 		return
 	}
 	initFn := p.Func("init")
@@ -940,4 +948,24 @@ func (r *symref) store(fr *frame, v value) {
 		c := ts.Eq(r.idx, ts.BV(uint64(k), 64))
 		fr.i.setCell(&r.elems[k], mkSym(ts.Ite(c, vt, fr.i.termOf(r.elems[k])), k0))
 	}
+}
+
+// globalReadOK: globals of packages whose init is skipped that are safe to
+// read in their zero state, or that hold only static data built without init
+// code (string/numeric constants-as-vars are initialised statically by the
+// SSA builder into init, so they are NOT safe and not listed).
+func globalReadOK(g *ssa.Global) bool {
+	switch g.Pkg.Pkg.Path() {
+	case "os":
+		switch g.Name() {
+		case "Stdout", "Stderr", "Stdin", "Args", "ErrNotExist", "ErrExist", "ErrPermission":
+			return true
+		}
+	case "sync", "sync/atomic", "runtime", "internal/race", "internal/godebug", "unsafe", "internal/cpu":
+		return true
+	}
+	if strings.HasPrefix(g.Name(), "init$guard") {
+		return true
+	}
+	return false
 }
